@@ -118,8 +118,9 @@ class Layout:
                     cq_list(blobs)))
 
     def cq_op(self, o):
-        return "{| o_noj := %s; o_term := %s |}" % ("true" if o.get("noj") else "false",
-                                                    self.cq_term((o["kind"], o["path"], o.get("sel", "v"))))
+        frm = o.get("from", "default")
+        src = {"default": "SDefault", "noj": "SNoJ"}.get(frm) or "(SDir %s)" % self.cq_path(tuple(frm[4:].split("/")))
+        return "{| o_src := %s; o_term := %s |}" % (src, self.cq_term((o["kind"], o["path"], o.get("sel", "v"))))
 
     # ---- on disk
     def materialise(self, root):
@@ -358,7 +359,8 @@ def gen_layout(rng, idx):
             o = {"kind": rng.choice(["import", "importstr", "importbin"]), "path": special(), "sel": "v"}
         else:
             o = {"kind": "import", "path": "s.jsonnet", "sel": "v"}
-        o["noj"] = rng.chance(0.15)
+        r = rng.below(100)
+        o["from"] = "noj" if r < 12 else ("dir:" + "/".join(rng.choice(dirs))) if r < 24 else "default"
         ops.append(o)
     L.ops = ops + [dict(o) for o in ops]       # everything is retried once
     L.idx = idx
@@ -384,7 +386,7 @@ def fixed_layouts():
                 nid[0] += 1
                 bd = {"id": 9000 + len(out) * 10 + nid[0], "strict": content[0], "lazy": content[1]}
                 L.files[p] = L.add_blob(body_source(bd), bd)
-        L.ops = [dict(kind=k, path=p, sel=s, noj=False) for k, p, s in ops]
+        L.ops = [{"kind": k, "path": p, "sel": s, "from": "default"} for k, p, s in ops]
         L.idx = 100000 + len(out)
         out.append(L)
 
@@ -450,6 +452,8 @@ def conv_src(inv, t):
         return "default"
     if t == "SNoJ":
         return "noj"
+    if t.name == "SDir":
+        return "dir:" + conv_path(inv, t.args[0])
     return "file:" + conv_path(inv, t.args[0])
 
 
@@ -583,6 +587,7 @@ def judge(run, L, s, mres, mlog, mfresh, mfixed, mcalls, o, failures, model_diff
         run.count("result:" + next(iter(r)) + (":" + r["err"] if "err" in r else ""))
     for op in L.ops:
         run.count("op:" + op["kind"])
+        run.count("from:" + op.get("from", "default").split(":")[0])
     if any("panic" in r or "other" in r for r in o["results"]):
         fail("an import operation panicked or answered a value of the wrong type", mres, o["results"])
         return
@@ -792,7 +797,7 @@ RULE = ("layouts of 2-5 logical Jsonnet files (dag / diamond / strict 2- and 3-c
         "duplicated entry), text / non-UTF-8 / empty files, file and directory symlinks, dangling links; path "
         "spellings x, ./x, d/../x, d/x, ../d/x, link/x, link/../x, missing/../x; targets that are missing, "
         "directories, or below a regular file; import / importstr / importbin at top level (default source and "
-        "SourceDefaultIgnoreJpath) and nested, strict and lazy; every history run twice on one State, crossed "
+        "SourceDefaultIgnoreJpath, SourceDirectory) and nested, strict and lazy; every history run twice on one State, crossed "
         "with no fault, single faults at sampled resolver-call indices (thorough: every index) and pairs. "
         "distinct = distinct (layout, history, fault set); all are non-trivial")
 TRUSTED = ["Coq 8.16.1 kernel incl. vm_compute",
